@@ -56,6 +56,26 @@ theorem duration_eq_iff (n m : Int) (u w : DUnit) (s e s' e' : Nat) :
 theorem tok_eq_iff (k1 k2 : Tok) (s e s' e' : Nat) : (⟨.tok k1, s, e⟩ : Art).pyEq ⟨.tok k2, s', e'⟩ = true ↔ (s = s' ∧ e = e' ∧ k1.id = k2.id) := by
   simp [Art.pyEq, and_assoc]
 
+/-- canonical identity of a production element: span and pattern id for a token, the bare value otherwise -/
+def akey (a : Art) : Sum (Nat × Nat × Nat) Val :=
+  match a.v with | .tok k => .inl (a.ms, a.me, k.id) | v => .inr v
+
+/-- Python `==` on production elements is equality of canonical identities — hence an equivalence relation -/
+theorem pyEq_iff_akey (a b : Art) : a.pyEq b = true ↔ akey a = akey b := by
+  obtain ⟨va, sa, ea⟩ := a
+  obtain ⟨vb, sb, eb⟩ := b
+  cases va <;> cases vb <;> simp [akey, Art.pyEq, time_eq_iff, optTime_eq_iff, Gen.intervalAttrs, Gen.durationAttrs, and_assoc]
+
+theorem pyEq_refl (a : Art) : a.pyEq a = true := (pyEq_iff_akey a a).mpr rfl
+theorem pyEq_symm (a b : Art) (h : a.pyEq b = true) : b.pyEq a = true := (pyEq_iff_akey b a).mpr ((pyEq_iff_akey a b).mp h).symm
+theorem pyEq_trans (a b c : Art) (h1 : a.pyEq b = true) (h2 : b.pyEq c = true) : a.pyEq c = true :=
+  (pyEq_iff_akey a c).mpr (((pyEq_iff_akey a b).mp h1).trans ((pyEq_iff_akey b c).mp h2))
+/-- a value never compares equal to a pattern match -/
+theorem pyEq_isVal (a b : Art) (h : a.pyEq b = true) : a.isVal = b.isVal := by
+  obtain ⟨va, sa, ea⟩ := a
+  obtain ⟨vb, sb, eb⟩ := b
+  cases va <;> cases vb <;> simp_all [Art.pyEq, Art.isVal]
+
 example : (⟨.duration 1 .days, 0, 5⟩ : Art).pyEq ⟨.duration 2 .hours, 0, 5⟩ = false := by decide
 example : (⟨.time { dow := some 0 }, 0, 5⟩ : Art).pyEq ⟨.time {}, 0, 5⟩ = false := by decide
 example : (⟨.time { hour := some 17, minute := some 0 }, 0, 3⟩ : Art).pyEq ⟨.time { hour := some 17, minute := some 0 }, 7, 12⟩ = true := by decide
